@@ -1484,6 +1484,10 @@ def orc_c16(case, obs):
     bad = []
     rec = case.meta.get("c16")
     if rec is None:
+        # cases without a probe (DEC family, full-list exits): a panicking decap is still the history nothing comes after
+        for op, ob in zip(case.ops, obs):
+            if ob.startswith("PANIC") and op.startswith(("DECAP", "DPEEK")):
+                return ["the history panics the decapsulator (%s): no receiver is left to recover" % op[:60]]
         return bad
     prov = obs[rec - 1]
     for op, ob in zip(case.ops[:rec], obs[:rec]):
